@@ -30,6 +30,7 @@ import (
 	"github.com/ipfs/go-graphsync/donotsendfirstblocks"
 	"github.com/ipfs/go-graphsync/ipldutil"
 	gsmsg "github.com/ipfs/go-graphsync/message"
+	"github.com/ipfs/go-graphsync/panics"
 	"github.com/ipfs/go-graphsync/peerstate"
 	"github.com/ipfs/go-graphsync/requestmanager/executor"
 	"github.com/ipfs/go-graphsync/requestmanager/hooks"
@@ -171,7 +172,12 @@ func (rm *RequestManager) requestTask(requestID graphsync.RequestID) executor.Re
 			PanicCallback: rm.panicCallback,
 		}.Start(ctx)
 
-		ipr.reconciledLoader = reconciledloader.NewReconciledLoader(ipr.request.ID(), ipr.lsys)
+		// the storage functions are user code that runs on the executor's goroutine
+		panicHandler := panics.MakeHandler(rm.panicCallback)
+		guardedLsys := *ipr.lsys
+		guardedLsys.StorageReadOpener = panics.WrapStorageReadOpener(guardedLsys.StorageReadOpener, panicHandler)
+		guardedLsys.StorageWriteOpener = panics.WrapStorageWriteOpener(guardedLsys.StorageWriteOpener, panicHandler)
+		ipr.reconciledLoader = reconciledloader.NewReconciledLoader(ipr.request.ID(), &guardedLsys)
 		inProgressCount := len(rm.inProgressRequestStatuses)
 		rm.outgoingRequestProcessingListeners.NotifyRequestProcessingListeners(ipr.p, ipr.request, inProgressCount)
 	}
